@@ -16,6 +16,7 @@ def run(ctx):
     nc, ns = pepsolve.r_drain(ctx)
     pepsolve.r_obj(ctx)
     pepsolve.r_fresh_declarations(ctx)
+    pepsolve.r_declare(ctx)
     wrappers.r_sense(ctx)
     wrappers.r_cmp(ctx)
     translate.r_keykinds(ctx)
@@ -23,6 +24,7 @@ def run(ctx):
     wrappers.r_lmienc(ctx)
     wrappers.r_mainvars(ctx)
     wrappers.r_psdstore(ctx)
+    wrappers.r_mosekrow(ctx)
     pepsolve.r_objsense(ctx)
     state.r_accum(ctx)
     nb = wrappers.r_baridx(ctx)
